@@ -6,8 +6,9 @@ import (
 	"github.com/meshplus/bitxhub-kit/storage"
 )
 
-// FaultStore wraps a storage and, once armed, lets only the first Allowed batch commits through
-// (models a process death between two durable writes of the same store).
+// FaultStore wraps a storage and, once armed, lets only the first Allowed durable writes through (batch
+// commits and direct Put/Delete calls each count as one): a process death between two durable writes of the
+// same store. Seen counts the durable writes attempted since Arm.
 type FaultStore struct {
 	storage.Storage
 	mu      sync.Mutex
@@ -18,7 +19,7 @@ type FaultStore struct {
 
 func NewFaultStore(s storage.Storage) *FaultStore { return &FaultStore{Storage: s} }
 
-// Arm starts counting batch commits; commits beyond allowed are dropped silently.
+// Arm starts counting durable writes; writes beyond allowed are dropped silently.
 func (f *FaultStore) Arm(allowed int) {
 	f.mu.Lock()
 	defer f.mu.Unlock()
@@ -46,4 +47,30 @@ func (b *faultBatch) Commit() {
 		return
 	}
 	b.Batch.Commit()
+}
+
+func (f *FaultStore) drop() bool {
+	f.mu.Lock()
+	defer f.mu.Unlock()
+	if !f.armed {
+		return false
+	}
+	f.Seen++
+	return f.Seen > f.Allowed
+}
+
+// Put is a durable write of its own.
+func (f *FaultStore) Put(key, value []byte) {
+	if f.drop() {
+		return
+	}
+	f.Storage.Put(key, value)
+}
+
+// Delete is a durable write of its own.
+func (f *FaultStore) Delete(key []byte) {
+	if f.drop() {
+		return
+	}
+	f.Storage.Delete(key)
 }
